@@ -232,6 +232,9 @@ func runC09(c *Ctx) {
 		r.Funcs[c.FuncKey(writeFn)] = true
 	}
 
+	// R3 (c): text is never re-interpreted as a printf format on its way to the wire
+	c.formatHygieneRule("R3")
+
 	// R4
 	nSt := 0
 	for _, fn := range funcs {
@@ -575,3 +578,99 @@ func (c *Ctx) paramStored(v ssa.Value, depth int) string {
 }
 
 var _ = strings.Contains
+
+// formatHygieneRule: in the command-sending code, the format argument of
+// every printf-style call (fmt.Sprintf/Fprintf/Errorf... and module functions
+// with a (format string, args ...interface{}) tail) is a constant or the
+// enclosing function's own format parameter - never text.
+func (c *Ctx) formatHygieneRule(rule string) {
+	r, a := c.R, c.A
+	isFmtLike := func(sig *types.Signature) int { // index of the format parameter, or -1
+		n := sig.Params().Len()
+		if !sig.Variadic() || n < 2 {
+			return -1
+		}
+		last := sig.Params().At(n - 1).Type()
+		sl, ok := last.(*types.Slice)
+		if !ok {
+			return -1
+		}
+		if it, ok := sl.Elem().Underlying().(*types.Interface); !ok || it.NumMethods() != 0 {
+			return -1
+		}
+		if !isStringType(sig.Params().At(n - 2).Type()) {
+			return -1
+		}
+		return n - 2
+	}
+	// functions that can put text on the wire: command methods and what they call
+	var cmds []*ssa.Function
+	ms := c.SSA.MethodSets.MethodSet(types.NewPointer(a.Conn))
+	for i := 0; i < ms.Len(); i++ {
+		if fn := c.SSA.MethodValue(ms.At(i)); fn != nil && fn.Blocks != nil {
+			cmds = append(cmds, fn)
+		}
+	}
+	n := 0
+	for _, fn := range cmds {
+		reach := c.Closure([]*ssa.Function{fn}, func(from *ssa.Function, e Edge) bool {
+			return !e.Site.Common().IsInvoke() && e.Kind != EdgeGo && e.Callee != a.ConnDispatch && e.Callee != a.SetDispatch && e.Callee.Package() == c.Client
+		})
+		if _, ok := reach.Funcs[a.Raw]; !ok && fn != a.Raw && fn.Name() != "write" {
+			continue
+		}
+		for _, cs := range CallSites(fn) {
+			cc := cs.Common()
+			var sig *types.Signature
+			recvOff := 0
+			if cc.IsInvoke() {
+				continue
+			}
+			callee := cc.StaticCallee()
+			if callee == nil {
+				continue
+			}
+			sig = callee.Signature
+			if sig.Recv() != nil {
+				recvOff = 1
+			}
+			fi := isFmtLike(sig)
+			if fi < 0 {
+				continue
+			}
+			name := calleeName(cc)
+			if strings.HasPrefix(name, modPath+"/logging.") {
+				continue // logging formats are C20's subject
+			}
+			if !(strings.HasPrefix(name, "fmt.") || c.InModuleFn(callee)) {
+				continue
+			}
+			if strings.HasSuffix(name, "ln") || strings.HasSuffix(name, "Sprint") || strings.HasSuffix(name, "Fprint") {
+				continue
+			}
+			if fi+recvOff >= len(cc.Args) {
+				continue
+			}
+			n++
+			fa := cc.Args[fi+recvOff]
+			ok := false
+			why := "format argument is text: " + fa.String()
+			if _, isC := constString(fa); isC {
+				ok, why = true, "constant format"
+			} else if pr, isP := fa.(*ssa.Parameter); isP && pr.Parent() == fn {
+				// the function's own format parameter
+				if j := isFmtLike(fn.Signature); j >= 0 {
+					off := 0
+					if fn.Signature.Recv() != nil {
+						off = 1
+					}
+					if j+off < len(fn.Params) && fn.Params[j+off] == pr {
+						ok, why = true, "the caller's format parameter is forwarded"
+					}
+				}
+			}
+			r.Add(rule, fmt.Sprintf("format:%s:%s#%d", c.FuncKey(fn), calleeShort(cc), n), c.InstrPos(cs), c.FuncKey(fn), "text is never used as a printf format (it would be rewritten at every %)", ok, why)
+		}
+	}
+	r.Floor(rule, "printf-style calls in the command path", n, 1)
+}
